@@ -85,7 +85,7 @@ def run_check(prop, tier, seed):
     known = []
     all_units = unitsmod.load_all(os.path.join(ROOT, "spec", "units"))
     evidence = {
-        "property_id": prop, "tier": tier, "seed": seed, "level": spec.get("level", "proof" if jobs_spec else "exploration"),
+        "property_id": prop, "tier": tier, "seed": seed, "level": (getattr(plan, "MANIFEST_TEXT", {}).get(prop, {}).get("category") or spec.get("level", "proof" if jobs_spec else "exploration")),
         "coverage": {}, "assumptions": [], "wall_s": 0.0, "violations": 0,
     }
     try:
@@ -137,7 +137,13 @@ def run_check(prop, tier, seed):
         workers = int(os.environ.get("VERIF_JOBS", "14"))
 
         def work(j):
-            j.result = verus.run_verus(j.path, seed=seed if seed else None)
+            # the SMT seed is NOT varied with VERIF_SEED: a proof either exists or not; the seed drives the random search of the
+            # second engine only. A resource-limit failure is retried once with a 4x larger limit before it counts as undecided.
+            j.result = verus.run_verus(j.path)
+            if any(d.kind == "resource" for d in j.result.diags):
+                r2 = verus.run_verus(j.path, rlimit=120)
+                r2.retried = True
+                j.result = r2
             return j
         with concurrent.futures.ThreadPoolExecutor(max_workers=workers) as ex:
             list(ex.map(work, runnable))
